@@ -10,7 +10,13 @@
    signed field changed after signing, signature/key/scheme substitutions, structural defects, and one
    bit flipped at every byte offset of the signed body; verdicts of the real
    acl/v2.Service.Verify*TokenMessage.
-3. TLC (TraceTokens): ok = Honoured(abstract input) for every record."""
+3. TLC (TraceTokens): ok = Honoured(abstract input) for every record.
+4. Cache half (spec/TokenCache.tla): the memoisation of the common token check is modelled explicitly
+   (purged at new-epoch events only); TLC proves it is transparent (every verification = cache-less
+   evaluation at the current chain time / epoch). TLC-simulated and seeded random histories
+   Verify / Tick (chain time advances, no purge) / Epoch (epoch++ and purge, as the node does) are
+   executed on ONE real Service re-verifying the SAME token bytes, and the recorded trace is validated
+   by TraceTokenCache (same result at every step, CacheTransparent at every step)."""
 import json
 import os
 
@@ -38,15 +44,81 @@ def klass(i):
     return (k, auth, life, rel)
 
 
+def cache_half(ck, binp, thorough, only_script=None):
+    """M->C + C->M for the verification caches. Returns number of histories run."""
+    import random
+    if only_script is not None:
+        scripts = [only_script]
+    else:
+        scripts = []
+        for s in range(3 if thorough else 1):
+            scripts += ck.tlc_scripts("TokenCacheGen", "TokenCacheGen.cfg", num=60 if thorough else 15, depth=10, seed=ck.seed * 10 + s)
+        cat = scripts[0]["cat"]
+        rnd = random.Random(ck.seed * 7919 + 30)
+        for _ in range(3000 if thorough else 300):   # seeded random histories, longer than the model's bounds
+            steps = []
+            for _ in range(rnd.randint(6, 16)):
+                x = rnd.random()
+                if x < 0.6:
+                    steps.append({"ev": "Verify", "k": rnd.randint(1, len(cat))})
+                elif x < 0.88:
+                    steps.append({"ev": "Tick"})
+                else:
+                    steps.append({"ev": "Epoch"})
+            scripts.append({"cat": cat, "steps": steps})
+    sp = os.path.join(ck.tmp, "cache-scripts.ndjson")
+    tp = os.path.join(ck.tmp, "cache-trace.ndjson")
+    vkit.write_ndjson(sp, scripts)
+    ck.harness(binp, ["c30cache", sp, tp], timeout=1500)
+    v = ck.tlc_validate("TraceTokenCache", "TraceTokenCache.cfg", tp, timeout=1500, heap="6g")
+    ev = vkit.read_ndjson(tp)
+    ck.setcov("cache_histories", len(scripts))
+    ck.setcov("cache_trace_events", len(ev))
+    n_after = 0   # verifications of a token already verified earlier in the same epoch with chain time moved since
+    for sc in scripts:
+        seen, t = {}, 0
+        for st in sc["steps"]:
+            if st["ev"] == "Tick":
+                t += 1
+            elif st["ev"] == "Epoch":
+                seen = {}
+            elif st["k"] in seen and seen[st["k"]] != t:
+                n_after += 1
+            else:
+                seen.setdefault(st["k"], t)
+    ck.setcov("cache_reverifications_after_time_moved", n_after)
+    if only_script is None and n_after < 50:
+        raise vkit.Infra("vacuous: only %d re-verifications after a chain time change" % n_after)
+    ck.sample({"cache_script": scripts[0], "trace_head": ev[:8]})
+    if not v.ok:
+        import re
+        ls = re.findall(r"/\\ l = (\d+)", v.out)
+        pos = int(ls[-1]) if ls else 1
+        idx = -1
+        for e in ev[:pos]:
+            if e["ev"] == "Init":
+                idx += 1
+        start = max(i for i, e in enumerate(ev[:pos]) if e["ev"] == "Init")
+        ck.violation("real token verification trace rejected by TokenCache (%s %s) at event %d: %s; history so far: %s"
+                     % (v.kind, v.name, pos, json.dumps(ev[pos - 1]), json.dumps(ev[start:pos])),
+                     {"cache_script": scripts[max(idx, 0)], "rejected_event": ev[pos - 1], "trace": ev[start:pos]})
+    return len(scripts)
+
+
 def run(ck):
     thorough = ck.tier == "thorough"
     if not os.environ.get("VERIF_ACL_SKIP_MODEL"):   # mutation-testing convenience only
         ck.tlc_model("Tokens", "Tokens_thorough.cfg" if thorough else "Tokens_quick.cfg", timeout=1500)
+        ck.tlc_model("TokenCache", "TokenCache_quick.cfg", timeout=600)
     ck.setcov("exhaustive", True)
     ck.setcov("constants", "Epochs {0,1,7,1000,2147483000}, full verb/relation product per auth class" if thorough
               else "Epochs {0,1,7}, verb/relation product for the good auth class")
     binp = ck.gobuild("acl")
     recs_path = os.path.join(ck.tmp, "c30.ndjson")
+    if ck.replay and "cache_script" in json.load(open(ck.replay))["replay"]:
+        n = cache_half(ck, binp, thorough, only_script=json.load(open(ck.replay))["replay"]["cache_script"])
+        ck.setcov("traces_validated_against_impl", n)
+        return
     if ck.replay:
         doc = json.load(open(ck.replay))
         ck.seed = doc.get("seed", ck.seed)
@@ -55,7 +127,8 @@ def run(ck):
     else:
         ck.harness(binp, ["c30", recs_path], timeout=1500)
     recs, bad = acl_util.validate(ck, "TraceTokens", "TraceTokens.cfg", recs_path)
-    ck.setcov("traces_validated_against_impl", len(recs))
+    n_hist = 0 if ck.replay else cache_half(ck, binp, thorough)
+    ck.setcov("traces_validated_against_impl", len(recs) + n_hist)
     ck.setcov("rule", "Tokens!Admissible(abstract input, ok of real Service.Verify*TokenMessage): ok = Honoured(in), either neighbouring whole second admitted for a sub-second V2 chain time")
     ck.setcov("distinct_nontrivial", len({klass(r["in"]) for r in recs}))
     by = {}
@@ -99,6 +172,6 @@ def run(ck):
         "sig = ok iff the attached signature was produced by the issuer's key over exactly the body now carried (tracked by construction; cryptography trusted)",
         "lifetime, container, object list, verb and contexts of the abstract input are read back from the final proto message by the harness (absV1 / absV2)",
         "N3 witnesses are judged by a fake FS chain (verifies iff registered good AND the signer account is the hash of the verification script)",
-        "token check caches are purged on every epoch / time change before the next verification (cmd/neofs-node wires this with new-epoch handlers)",
+        "record half: caches purged before every single verification; cache half: caches purged only at Epoch events, exactly where cmd/neofs-node purges them (new-epoch handlers); the window between an epoch tick and the asynchronous purge, and LRU eviction, are not modelled",
         "how a sub-second V2 chain time is rounded to whole seconds is not pinned (either neighbouring second admitted); epochs above 2^31 are not representable in TLC",
     ]
